@@ -8,6 +8,7 @@ from conda_content_trust import authentication as A, common as C
 
 from vlib import fuzz as FZ, gen_envelope as GE, gen_json as G, gen_metadata as GM, gen_mutate as MU, gen_pyvalues as GP, keys, \
     ref_schema, ref_verify as RV
+from vlib import cfgunit as _cfgunit
 from vlib.runner import REPO, Unit, Violation
 
 PROPERTY = "C14"
@@ -237,4 +238,5 @@ UNITS = [
         quick=1500, thorough=60000, doc="free-form JSON / Python values"),
     Unit("accepted", check_accepted, strategy=_accepted, quick=400, thorough=15000,
          doc="whatever the checker accepts never makes verify_root / verify_delegation fail outside the documented families"),
+    _cfgunit.unit_under_config(PROPERTY, 'mutated', exclude=()),
 ]
